@@ -76,3 +76,4 @@ impl Drop for D {
 pub(crate) fn drops(i: usize) -> u8 {
   unsafe { DROPS[i] }
 }
+
